@@ -1958,3 +1958,32 @@ package adaptation
 //@   ensures [kill]  p.cmd != nil && p.cmd.Process != nil && p.impl.wasmImpl == nil ==> ncalls("(*os.Process).Kill") == old(ncalls("(*os.Process).Kill")) + 1 && callarg("(*os.Process).Kill", old(ncalls("(*os.Process).Kill")), 0) == p.cmd.Process
 //@                   && ncalls("(*os.Process).Wait") == old(ncalls("(*os.Process).Wait")) + 1 && callarg("(*os.Process).Wait", old(ncalls("(*os.Process).Wait")), 0) == p.cmd.Process
 //@                   && callseq("(*os.Process).Kill", old(ncalls("(*os.Process).Kill"))) < callseq("(*os.Process).Wait", old(ncalls("(*os.Process).Wait")))
+
+// ---------------------------------------------------------------------------
+// Plugin discovery (C18): which directory entries become plugins
+// ---------------------------------------------------------------------------
+//@ func Adaptation.discoverPlugins
+//@   props C18
+//@   flag append-lemmas
+//@   requires r != nil
+//@   modifies @writes
+//@   ensures [missing] callret("os.ReadDir", old(ncalls("os.ReadDir")), 1) != nil && callret("os.IsNotExist", old(ncalls("os.IsNotExist")), 0) ==> result.3 == nil && len(result.0) == 0 && len(result.1) == 0 && len(result.2) == 0
+//@   ensures [unreadable] callret("os.ReadDir", old(ncalls("os.ReadDir")), 1) != nil && !callret("os.IsNotExist", old(ncalls("os.IsNotExist")), 0) ==> result.3 != nil
+//@   ensures [err]   result.3 != nil ==> len(result.0) == 0 && len(result.1) == 0 && len(result.2) == 0
+//@   ensures [lens]  len(result.0) == len(result.1) && len(result.1) == len(result.2)
+//@   ensures [idx]   forall i int :: 0 <= i && i < len(result.0) ==> twoDigits(result.0[i])
+//@   ensures [once]  ncalls("os.ReadDir") == old(ncalls("os.ReadDir")) + 1 && callarg("os.ReadDir", old(ncalls("os.ReadDir")), 0) == r.pluginPath
+// only an entry that is not a directory and has an execute bit is looked at by name
+//@   at call fs.DirEntry.Name assert !callret("fs.DirEntry.IsDir", ncalls("fs.DirEntry.IsDir") - 1, 0)
+//@   at call fs.DirEntry.Name assert callarg("fs.DirEntry.IsDir", ncalls("fs.DirEntry.IsDir") - 1, 0) == arg0
+//@   at call fs.DirEntry.Name assert callret("fs.DirEntry.Info", ncalls("fs.DirEntry.Info") - 1, 1) == nil
+//@   at call fs.DirEntry.Name assert callarg("fs.DirEntry.Info", ncalls("fs.DirEntry.Info") - 1, 0) == arg0
+//@   at call fs.DirEntry.Name assert callarg("fs.FileInfo.Mode", ncalls("fs.FileInfo.Mode") - 1, 0) == callret("fs.DirEntry.Info", ncalls("fs.DirEntry.Info") - 1, 0)
+//@   at call fs.DirEntry.Name assert (callret("fs.FileInfo.Mode", ncalls("fs.FileInfo.Mode") - 1, 0) & 73) != 0
+//@   loop 1 invariant 0 <= idx + 1 && idx + 1 <= len(entries) && r != nil
+//@   loop 1 invariant len(indices) == len(plugins) && len(plugins) == len(configs)
+//@   loop 1 invariant (base(indices) == 0 || fresh(indices)) && (base(plugins) == 0 || fresh(plugins)) && (base(configs) == 0 || fresh(configs))
+//@   loop 1 invariant base(indices) != 0 ==> base(indices) != base(plugins) && base(indices) != base(configs) && base(indices) != base(entries)
+//@   loop 1 invariant forall i int :: 0 <= i && i < len(indices) ==> twoDigits(indices[i])
+//@   loop 1 invariant ncalls("os.ReadDir") == old(ncalls("os.ReadDir")) + 1 && callarg("os.ReadDir", old(ncalls("os.ReadDir")), 0) == r.pluginPath
+//@   loop 1 invariant forall i int :: 0 <= i && i < len(entries) ==> entries[i] != nil
